@@ -635,6 +635,9 @@ def foreign_fd_probe(pexpect, c, fd):
     """I/O after close fails with an error and does not touch whoever owns the old descriptor number now: files are opened until
     the number is taken again, the whole I/O family is called on the object, and every one of those files must still be empty"""
     fds = []
+    # (a log file attached to the object is not what is probed here: with one that is closed the send family would fail before it
+    # reaches the descriptor)
+    c.logfile = c.logfile_read = c.logfile_send = None
     try:
         while fd not in fds and len(fds) < 64:
             fds.append(os.memfd_create('verif-probe'))
